@@ -36,52 +36,6 @@ META = {
 DL = "eko.io.dictlike"
 LEAVES = ["ndarray", "npfloat64", "npother", "float", "int", "str", "bool", "none", "xgrid", "enum", "dictlike"]
 PLAIN_LEAF = {"float", "int", "str", "bool", "none"}
-# which kinds an isinstance(value, T) test accepts (real subtype relations)
-ISA = {
-    "np.ndarray": {"ndarray"}, "numpy.ndarray": {"ndarray"},
-    "np.generic": {"npfloat64", "npother"}, "numpy.generic": {"npfloat64", "npother"},
-    "np.number": {"npfloat64", "npother"}, "np.floating": {"npfloat64"}, "np.float64": {"npfloat64"},
-    "float": {"float", "npfloat64"}, "int": {"int", "bool"}, "bool": {"bool"}, "str": {"str"},
-    "interpolation.XGrid": {"xgrid"}, "XGrid": {"xgrid"},
-    "enum.Enum": {"enum"}, "Enum": {"enum"}, "DictLike": {"dictlike"},
-    "tuple": {"tuple"}, "list": {"list"}, "dict": {"dict"},
-}
-
-
-def kind_head(k):
-    return k if isinstance(k, str) else k[0]
-
-
-def matches(test, k, fn):
-    """does the branch test accept a value of kind k?  None = cannot decide"""
-    if isinstance(test, ast.Call):
-        d = ast.unparse(test.func)
-        if d == "isinstance" and ast.unparse(test.args[0]) == "value":
-            ts = test.args[1].elts if isinstance(test.args[1], ast.Tuple) else [test.args[1]]
-            res = False
-            for t in ts:
-                name = ast.unparse(t)
-                if name not in ISA:
-                    return None
-                res = res or kind_head(k) in ISA[name]
-            return res
-        if d in ("dataclasses.is_dataclass", "is_dataclass") and ast.unparse(test.args[0]) == "value":
-            return kind_head(k) in ("dataclass", "dictlike")
-        if d == "hasattr" and ast.unparse(test.args[0]) == "value" and isinstance(test.args[1], ast.Constant):
-            a = test.args[1].value
-            if a == "item":
-                return kind_head(k) in ("ndarray", "npfloat64", "npother")
-            if a == "tolist":
-                return kind_head(k) in ("ndarray", "npfloat64", "npother")
-        return None
-    if isinstance(test, ast.BoolOp):
-        vals = [matches(v, k, fn) for v in test.values]
-        if any(v is None for v in vals):
-            return None
-        return any(vals) if isinstance(test.op, ast.Or) else all(vals)
-    if isinstance(test, ast.Compare) and ast.unparse(test) == "value is None":
-        return k == "none"
-    return None
 
 
 def kinds(depth):
